@@ -80,9 +80,18 @@ impl Qcow2IoOps for Qcow2IoTokio {
         let mut file = self.file.lock().await;
 
         file.seek(SeekFrom::Start(offset)).await?;
-        let res = file.read(buf).await?;
+        // a single read() returns at most tokio's internal buffer size
+        // (2 MiB): read until the buffer is full or the file ends
+        let mut done = 0;
+        while done < buf.len() {
+            let res = file.read(&mut buf[done..]).await?;
+            if res == 0 {
+                break;
+            }
+            done += res;
+        }
 
-        Ok(res)
+        Ok(done)
     }
 
     async fn write_from(&self, offset: u64, buf: &[u8]) -> Qcow2Result<()> {
